@@ -874,8 +874,13 @@ class QSerialization(DeconstructedSerialization):
         elif num_children == 1:
             child = value.children[0]
 
-            result.append('models.Q(%s=%s)' % (child[0],
-                                               serialize_to_python(child[1])))
+            if isinstance(child, Q):
+                # This is a Q nested directly in another Q.
+                result.append('models.Q(%s)' % serialize_to_python(child))
+            else:
+                result.append(
+                    'models.Q(%s=%s)' % (child[0],
+                                         serialize_to_python(child[1])))
         else:
             children = []
 
